@@ -8,6 +8,8 @@ text > data > media > stream, Content-Length == bytes sent, bodiless statuses / 
 import engine.loader as _l
 _l.install()
 
+import asyncio  # noqa: E402
+
 import http  # noqa: E402
 
 import falcon  # noqa: E402
@@ -28,7 +30,7 @@ STUBS = [
     'status values come from a menu (int, str line, http.HTTPStatus, unknown code); text/data content is symbolic',
     "file-like response streams hold b'abc' and hand out at most 2 bytes per read() (short reads before EOF, like a pipe)",
 ]
-OUTSIDE = ['SSE emitters (need a real event loop for the disconnect watcher)', 'custom response classes', 'more than 2 stream chunks',
+OUTSIDE = ['SSE emitters beyond 3 events / 10 schedule decisions; SSE with a failing server send()', 'custom response classes', 'more than 2 stream chunks',
            'media handlers other than JSON']
 BUDGET = {'quick': 300, 'thorough': 900}
 
@@ -375,9 +377,136 @@ def h(%s) -> int:
                           ', the k-th server send() raises (k symbolic)' if asgi else ', wsgi.file_wrapper present or not')}
 
 
+# ---------------------------------------------------------------- SSE (ASGI only), on the deterministic loop
+class _SSERes:
+    async def on_get(self, req, resp):
+        n = BOX['sse_n']
+
+        async def emitter():
+            for i in range(n):
+                yield (falcon.asgi.SSEvent(data=b'x', event_id=str(i)) if i % 2 == 0 else None)
+                if BOX['sse_fail'] == i + 1:
+                    raise _Fail('emitter failed')
+        resp.sse = emitter()
+        if BOX['cookie']:
+            resp.set_cookie('c', 'v')
+
+
+_SSEAPP = []
+
+
+def _sse_app():
+    if not _SSEAPP:
+        with notrace():
+            app = falcon.asgi.App()
+            app.add_route('/sse', _SSERes())
+            _SSEAPP.append(app)
+    return _SSEAPP[0]
+
+
+def sse_case(n_events, disc_after, emitter_fail, choices):
+    """An SSE response on the deterministic loop.  n_events: events the emitter yields; disc_after: the client's
+    http.disconnect becomes deliverable once that many body events have been sent (-1: the client stays); emitter_fail: the
+    emitter raises after that many events (0: never); choices: schedule (deliver the disconnect now vs run the next ready
+    callback).  Monitor: one start, every body event but the last has more_body true, the response is terminated by a final
+    body event unless the emitter itself failed, nothing after it."""
+    from engine.envmodels import MiniLoop, running_loop
+    app = _sse_app()
+    BOX.update(sse_n=n_events, sse_fail=emitter_fail, cookie=True)
+    loop = MiniLoop()
+    sent = []
+    pending = []
+    st = {'first': True, 'ci': 0, 'delivered': False}
+
+    async def receive():
+        if st['first']:
+            st['first'] = False
+            return {'type': 'http.request', 'body': b'', 'more_body': False}
+        f = loop.create_future()
+        pending.append(f)
+        return await f
+
+    async def send(ev):
+        sent.append(ev)
+        await asyncio.sleep(0)      # a real server's send() may yield to the loop (flow control): other tasks get to run
+    escaped = None
+    with running_loop(loop):
+        t = loop.create_task(app(make_scope(path='/sse'), receive, send))
+        guard = 0
+        while not t.done():
+            guard += 1
+            if guard > 400:
+                return fail('SSE session: livelock')
+            bodies = sum(1 for e in sent if e['type'] == 'http.response.body')
+            can_deliver = bool(pending) and not st['delivered'] and disc_after >= 0 and bodies >= disc_after
+            can_step = bool(loop._ready)
+            if can_deliver and can_step:
+                c = choices[st['ci']] if st['ci'] < len(choices) else True
+                st['ci'] += 1
+            elif can_deliver:
+                c = True
+            elif can_step:
+                c = False
+            else:
+                return fail(lambda: 'SSE session blocked: events %r' % ([e['type'] for e in sent],))
+            if c:
+                f = pending.pop(0)
+                st['delivered'] = True
+                if not f.cancelled():
+                    f.set_result({'type': 'http.disconnect'})
+            else:
+                loop.run_one()
+        loop.drain()
+        left = [getattr(x.get_coro(), '__qualname__', repr(x)) for x in loop.leftover_tasks()]
+        try:
+            t.result()
+        except _Fail:
+            escaped = 'emitter'
+        except Exception as e:  # noqa
+            escaped = type(e).__name__
+    ctx = lambda: 'n_events=%r disconnect_after=%r emitter_fail=%r schedule=%r -> %r escaped=%r' % (  # noqa: E731
+        n_events, disc_after, emitter_fail, choices, [(e['type'], e.get('more_body')) for e in sent], escaped)
+    if escaped not in (None, 'emitter') or (escaped == 'emitter' and not (0 < emitter_fail <= n_events)):
+        return fail(lambda: 'exception escaped the app: ' + ctx())
+    # (tasks left behind -- `left` -- are not judged here: the property speaks about the events the server receives.  On the
+    #  unchanged tree an emitter that raises leaves the disconnect watcher pending; recorded as an observation in DESIGN §10.3.)
+    types = [e['type'] for e in sent]
+    if types[:1] != ['http.response.start'] or types.count('http.response.start') != 1:
+        return fail(lambda: 'start event missing or repeated: ' + ctx())
+    bodies = [e for e in sent[1:]]
+    if any(e['type'] != 'http.response.body' for e in bodies):
+        return fail(lambda: 'unexpected event: ' + ctx())
+    if escaped is None:
+        if not bodies or bodies[-1].get('more_body', False):
+            return fail(lambda: 'SSE response never terminated (no final body event with more_body false): ' + ctx())
+    for e in bodies[:-1] if escaped is None else bodies:
+        if not e.get('more_body', False):
+            return fail(lambda: 'a non-final body event has more_body false: ' + ctx())
+    n_data = len(bodies) - (1 if escaped is None else 0)
+    if n_data > n_events:
+        return fail(lambda: 'more events sent than emitted: ' + ctx())
+    if disc_after < 0 and escaped is None and n_data != n_events:
+        return fail(lambda: 'client connected throughout but %d of %d events sent: ' % (n_data, n_events) + ctx())
+    return 1
+
+
 def partitions(tier, seed):
     P = []
     q = tier == 'quick'
+    nb = 6 if q else 10
+    bits = ', '.join('c%d: bool' % i for i in range(nb))
+    P.append({'name': 'sse_asgi', 'fn': 'h', 'timeout': 200 if q else 600, 'src': '''
+def h(n: int, disc_after: int, emitter_fail: int, %s) -> int:
+    \"\"\"
+    pre: 0 <= n <= %d and -1 <= disc_after <= %d and 0 <= emitter_fail <= %d
+    post: _ != 0
+    \"\"\"
+    return sse_case(n, disc_after, emitter_fail, [%s])
+''' % (bits, 2 if q else 3, 2 if q else 3, 2 if q else 3, ', '.join('c%d' % i for i in range(nb))),
+              'bounds': 'ASGI server-sent events on the deterministic loop: emitter of 0..%d events (SSEvent / None alternating), optionally '
+                        'raising after the k-th, client disconnect deliverable after j body events (or never), %d schedule decisions '
+                        '(deliver the disconnect vs next ready callback) -- all symbolic; event-sequence monitor, termination by a final '
+                        'body event' % (2 if q else 3, nb)})
     n = 0
     for asgi in (0, 1):
         for si in range(len(STATUSES)):
